@@ -23,13 +23,18 @@ def run(ctx: Ctx) -> int:
     ctx.functions_encoded.append("stage 2: checker/expr_checker.py + stmt_checker.py + cfg_checker.py (operator -> dunder resolution incl. reflected forms, inserted coercions, for -> __iter__/__next__/Option protocol, "
                                  "place decomposition), std/iter.py range / Range.__next__ and std/num.py bindings as reached by the programs, interpreted by lib/e5.py")
     ctx.bounds["stage 2"] = "first %d programs of the corpus through the checked CFGs; opaque results bounded by |r| <= 1000; paths with a 64-bit overflow, inside a known C04 region or out of fuel are outside" % ctx.pick(30, 400)
-    ctx.outside_claim = ["order edges in the HUGR (track_hugr_side_effects) and everything after the checked CFG", "qubit allocation / measurement order", "array construction, subscripts",
-                         "programs inside the two known-finding regions (there only the finding itself is re-established)"]
+    ctx.outside_claim = ["order edges in the HUGR (track_hugr_side_effects) and everything after the checked CFG", "qubit allocation / measurement order", "arrays of non-copyable elements other than arrays, array comprehensions, array indices outside [0, n) (C19)",
+                         "programs inside the known-finding regions (there only the finding itself is re-established)"]
     ctx.assumptions = ["a block's statements execute in list order, its predicate last; successors[1] = true"]
     KEY_R = "C05:reflected-comparison-evaluates-right-operand-first"
     have = len(e4_corpus.corpus("c05", 6, ctx.seed, "reflected-compare"))
     jobs += e4_check.jobs_for(ctx, "c05", 6, batch=3, timeout=ctx.pick(200, 600), region="reflected-compare", key=KEY_R, total=have,
                               harness="harness/E5_equiv.py", fn="h_equiv5")
+    for region, key in (("subscript-order", "C05:subscript-of-temporary-evaluates-index-before-container"),
+                        ("nested-subscript-order", "C05:nested-subscript-evaluates-outer-index-first")):
+        have = len(e4_corpus.corpus("c05", 6, ctx.seed, region))
+        jobs += e4_check.jobs_for(ctx, "c05", 6, batch=3, timeout=ctx.pick(200, 600), region=region, key=key, total=have,
+                                  harness="harness/E5_equiv.py", fn="h_equiv5")
     # stage 2 (E5): the same programs through the *checked* CFGs of the real front end (operator resolution, coercions, iterator protocol, 64-bit arithmetic)
     jobs += e4_check.jobs_for(ctx, "c05", n, batch=3, timeout=ctx.pick(300, 1500), total=n + nfixed, harness="harness/E5_equiv.py", fn="h_equiv5",
                               upto=ctx.pick(30, 400))
